@@ -12,7 +12,11 @@ match-rule object processor (conv), pre-reference-resolution callback (pre),
 scope provider call (resolve), user class __init__ (init), object processor
 (oproc), model processor (mproc).  A hook logs an event (with a snapshot of the
 instrumentation state of the user classes of the node's metamodel), may start
-nested loads (swallowing their failure or not) and may raise.
+nested loads (swallowing their failure or not) and may raise.  Hooks that get hold
+of objects whose constructor is still postponed (callback, scope provider, model
+processor of an imported file, constructor of a child / of a referring object) may
+*annotate* them (`ann`): store an attribute the grammar does not know (or knows for
+another rule, or a grammar attribute of the object again) and delete it again.
 
 `run_case` executes the case on the real textX and returns the canonical
 observation; `lean_request` renders the same case for Drivers/LoadTree.lean.
@@ -35,7 +39,12 @@ RULE_ATTRS = {
     "Item": ["name", "val"],
     "Ref": ["name", "target", "more"],
 }
-VARIANTS = ["plain", "slots", "frozen", "own_setattr", "own_getattribute", "own_all", "derived"]
+VARIANTS = ["plain", "slots", "frozen", "own_setattr", "own_getattribute", "own_all", "derived", "own_getattr"]
+# names user code stores on objects under construction: unknown to the grammar (plain, private, looking like
+# textX's own, differing from a grammar attribute in case / by a suffix, dunder-like) ...
+EXTRA_NAMES = ["note", "use_count", "_hidden", "_tx_user", "Name", "parent_", "__mark", "vals"]
+# ... or attributes of *other* rules of the grammar (never `name` / `importURI`: textX itself looks for them)
+FOREIGN_NAMES = ["val", "target", "more", "tag", "elems", "imports"]
 GRAMMAR = r"""
 Model: 'model' name=ID imports*=Import elems*=Elem;
 Import: 'import' importURI=STRING 'as' tag=ID;
@@ -59,7 +68,23 @@ class HookError(Exception):
 # static views of a case
 # --------------------------------------------------------------------------
 def hook(lab, acts=(), raises=None):
-    return {"lab": lab, "acts": [list(a) for a in acts], "raises": raises}
+    return {"lab": lab, "acts": [list(a) for a in acts], "raises": raises, "ann": []}
+
+
+def node_objs(node):
+    """(lab, rule, label of the container or None) of every object of one file"""
+    if node.get("immut"):
+        return []
+    out = [(node["lab"], "Model", None)]
+
+    def go(objs, parent):
+        for o in objs:
+            out.append((o["lab"], rule_of(o), parent))
+            if o["k"] == "box":
+                go(o["kids"], o["lab"])
+
+    go(root_children(node), node["lab"])
+    return out
 
 
 def walk_objs(objs):
@@ -156,7 +181,10 @@ def resolve_hooks(node):
 
 def has_oproc(case, node, rule):
     """no object processor is registered for frozen dataclasses (textX needs to
-    store _tx_position on an object to call its processor)"""
+    store _tx_position on an object to call its processor); a metamodel may have no
+    object processors at all (`noprocs`)"""
+    if case["mms"][node["mm"]].get("noprocs"):
+        return False
     cid = node_class(case, node, rule)
     return cid is None or case["classes"][cid]["variant"] != "frozen"
 
@@ -174,7 +202,8 @@ def oproc_hooks(case, node):
 
     for o in root_children(node):
         go(o)
-    out.append(node["oproc"])
+    if has_oproc(case, node, "Model"):
+        out.append(node["oproc"])
     return out
 
 
@@ -280,13 +309,27 @@ def lean_node(case, node):
 
 
 def lean_request(case, op="run", kw=None):
-    """`kw`: list of (rule, contained) for which the driver evaluates the constructor keyword filter"""
+    """`kw`: list of (rule, contained, ops) for which the driver evaluates the constructor keyword filter;
+    ops = [[is_set, name]...]: what user code stored on / deleted from the object before its constructor ran"""
     req = {"op": op, "nclasses": len(case["classes"]), "loads": [lean_node(case, n) for n in case["loads"]]}
     if kw:
         req["kw"] = [{"attrs": RULE_ATTRS[r], "assigned": RULE_ATTRS[r][:1], "contained": bool(c),
                       "extras": ["_tx_filename", "_tx_metamodel", "_tx_model_params", "_tx_model_repository",
-                                 "_tx_reference_resolver", "_tx_parser", "_tx_loaded_models"]} for r, c in kw]
+                                 "_tx_reference_resolver", "_tx_parser", "_tx_loaded_models"],
+                      "ops": [[bool(b), str(k)] for b, k in ops]} for r, c, ops in kw]
     return req
+
+
+def stores_before_init(obs):
+    """per constructor call (entry of obs["inits"]): the stores / deletions user code applied to that
+    object before the call, in order: [[op, name, value]...]"""
+    out = []
+    anns = obs.get("anns", [])
+    for (pid, lab, rule, kws), ie in zip(obs["inits"], obs.get("init_ev", [])):
+        out.append([[a[3], a[2], a[5]] for a in anns if a[4] and a[1] == lab and a[0] < ie] if lab >= 0 else [])
+    while len(out) < len(obs["inits"]):
+        out.append([])
+    return out
 
 
 # --------------------------------------------------------------------------
@@ -296,7 +339,7 @@ def make_class(rule, variant, on_init, is_root):
     """A fresh user class for `rule`.  `on_init(self, kwargs)` is the scripted
     constructor body (logs, nested loads, raise)."""
     attrs = list(RULE_ATTRS[rule]) + ([] if is_root else ["parent"])
-    counters = {"setattr": 0, "getattribute": 0, "delattr": 0}
+    counters = {"setattr": 0, "getattribute": 0, "delattr": 0, "getattr": 0}
 
     def body(self, kw):
         on_init(self, kw)
@@ -314,11 +357,16 @@ def make_class(rule, variant, on_init, is_root):
             def __init__(self, **kw):
                 body(self, kw)
     elif variant == "frozen":
-        def post(self):
-            on_init(self, {a: getattr(self, a) for a in attrs})
+        # a constructor with an explicit signature (the generated one: one parameter per grammar attribute
+        # [+ parent], nothing else accepted); the wrapper only lets the harness see what was passed
+        C = dataclasses.make_dataclass(rule, [(a, object) for a in attrs], frozen=True, eq=False)
+        generated_init = C.__init__
 
-        C = dataclasses.make_dataclass(rule, [(a, object) for a in attrs], frozen=True, eq=False,
-                                       namespace={"__post_init__": post})
+        def __init__(self, *args, **kw):
+            on_init(self, kw)
+            generated_init(self, *args, **kw)
+
+        C.__init__ = __init__
     elif variant == "own_setattr":
         class C:
             def __init__(self, **kw):
@@ -351,6 +399,14 @@ def make_class(rule, variant, on_init, is_root):
             def __getattribute__(self, k):
                 counters["getattribute"] += 1
                 return object.__getattribute__(self, k)
+    elif variant == "own_getattr":
+        class C:
+            def __init__(self, **kw):
+                body(self, kw)
+
+            def __getattr__(self, k):
+                counters["getattr"] += 1
+                raise AttributeError(k)
     elif variant == "derived":
         class Base:
             def __setattr__(self, k, v):
@@ -401,6 +457,8 @@ class Runner:
         self.tmp = tmp
         self.events = []
         self.inits = []  # [pid, lab, rule, [[key, raw value]...]]
+        self.init_ev = []  # index of the `init` event of each entry of `inits`
+        self.anns = []  # [event index of the hook, target label, name, op, applied?, value]
         self.labtab = {}  # lab -> (node, spec)
         self.res_seen = set()
         self.more_pos = {}
@@ -470,7 +528,7 @@ class Runner:
         mm.register_scope_providers({"*.*": provider})
         frozen = {self.case["classes"][cid]["rule"] for cid in spec["classes"]
                   if self.case["classes"][cid]["variant"] == "frozen"}
-        procs = {r: (lambda o, r=r: runner.on_oproc(o, r)) for r in RULES if r not in frozen}
+        procs = {} if spec.get("noprocs") else {r: (lambda o, r=r: runner.on_oproc(o, r)) for r in RULES if r not in frozen}
         procs["Val"] = self.on_conv
         mm.register_obj_processors(procs)
         mm.register_model_processor(self.on_mproc)
@@ -480,18 +538,84 @@ class Runner:
     def snap(self):
         return [instr_state(c) for c in self.mm_stack[-1]._verif_classes]
 
-    def run_hook(self, kind, node, h):
+    def run_hook(self, kind, node, h, ctx=None):
+        ev = len(self.events)
         self.events.append([KIND[kind], node["pid"], h["lab"], self.snap()])
+        self.annotate(kind, h, ctx, ev, late=False)
         for idx, swallow in h["acts"]:
             try:
                 self.run_load(self.case["loads"][idx])
             except Exception:
                 if not swallow:
                     raise
+        self.annotate(kind, h, ctx, ev, late=True)
         if h["raises"] == "type":
             raise TypeError(f"scripted TypeError at {h['lab']}")
         if h["raises"] == "exc":
             raise HookError(f"scripted failure at {h['lab']}")
+
+    # -- annotations: user code stores / deletes attributes on objects under construction ----
+    def reachable(self, anchor):
+        """label -> object for everything user code can reach from `anchor` (a model or one of its
+        objects): the anchor's own file and every file of its model repository"""
+        from textx import get_model
+
+        root = anchor
+        with contextlib.suppress(Exception):
+            root = get_model(anchor)
+        models = [root]
+        repo = _attr(root, "_tx_model_repository")
+        if repo is not None:
+            with contextlib.suppress(Exception):
+                models += [m for m in repo.all_models if m is not root]
+        found = {}
+        for m in models:
+            stack = [m]
+            while stack:
+                o = stack.pop()
+                if isinstance(o, (int, str)) or o is None:
+                    continue
+                rule = type(o).__name__
+                ent = self.lookup_obj(_attr(o, "tag") if rule == "Import" else _attr(o, "name"))
+                if ent is not None and ent[1]["lab"] not in found:
+                    found[ent[1]["lab"]] = o
+                for a in ("imports", "elems"):
+                    v = _attr(o, a)
+                    if isinstance(v, list):
+                        stack.extend(v)
+        return found
+
+    def annotate(self, kind, h, ctx, ev, late):
+        anns = [a for a in h.get("ann", ()) if bool(a["late"]) == late]
+        if not anns or ctx is None:
+            return
+        found = None
+        for a in anns:
+            target = None
+            if kind == "init":
+                kw = ctx
+                via = a["via"]
+                if via == "parent":
+                    target = kw.get("parent")
+                elif via == "target":
+                    target = kw.get("target")
+                elif isinstance(via, list) and isinstance(kw.get("more"), list) and via[1] < len(kw["more"]):
+                    target = kw["more"][via[1]]
+            else:
+                if found is None:
+                    found = self.reachable(ctx)
+                target = found.get(a["to"])
+            applied = False
+            if target is not None:
+                try:
+                    if a["op"] == "set":
+                        setattr(target, a["name"], a["val"])
+                    else:
+                        delattr(target, a["name"])
+                    applied = True
+                except Exception:
+                    applied = False  # e.g. __slots__ / frozen object whose class is not instrumented any more
+            self.anns.append([ev, a["to"], a["name"], a["op"], applied, a["val"]])
 
     def on_conv(self, text):
         ent = self.labtab.get(int(text))
@@ -516,7 +640,7 @@ class Runner:
             h = o["res"][1 + pos.index(ref.position)]
         if h["lab"] not in self.res_seen:
             self.res_seen.add(h["lab"])
-            self.run_hook("resolve", node, h)
+            self.run_hook("resolve", node, h, obj)
         if h["raises"] == "postponed":
             return True, Postponed()
         if h["raises"] == "unknown":
@@ -537,10 +661,12 @@ class Runner:
         self.idmap[id(obj)] = ["obj", rule, ent[1]["lab"] if ent else -1]
         if ent is None:
             self.inits.append([-1, -1, rule, raw])
+            self.init_ev.append(len(self.events))
             return
         node, o = ent
         self.inits.append([node["pid"], o["lab"], rule, raw])
-        self.run_hook("init", node, o["init"])
+        self.init_ev.append(len(self.events))
+        self.run_hook("init", node, o["init"], kw)
 
     def on_oproc(self, obj, rule):
         ent = self.lookup_obj(_attr(obj, "tag") if rule == "Import" else _attr(obj, "name"))
@@ -552,7 +678,7 @@ class Runner:
         lab = int(model) if isinstance(model, int) else int(model.name[1:])
         ent = self.labtab.get(lab)
         if ent is not None:
-            self.run_hook("mproc", ent[0], ent[0]["mproc"])
+            self.run_hook("mproc", ent[0], ent[0]["mproc"], None if isinstance(model, int) else model)
 
     # -- loads ----------------------------------------------------------------
     def run_load(self, node, mm=None):
@@ -560,7 +686,7 @@ class Runner:
         cb = None
         if node.get("pre") is not None:
             def cb(model, node=node):
-                self.run_hook("pre", node, node["pre"])
+                self.run_hook("pre", node, node["pre"], None if isinstance(model, int) else model)
         with open(self.path(node)) as f:
             text = f.read()
         self.mm_stack.append(mm)
@@ -701,6 +827,8 @@ def run_case(case, probe=True):
             "exc": exc,
             "events": r.events,
             "inits": r.named_inits(r.inits),
+            "init_ev": r.init_ev,
+            "anns": r.anns,
             "final": [instr_state(c) for c in r.classes],
             "dict_same": [class_snapshot(c) == b for c, b in zip(r.classes, before)],
             "counters": [dict(c._verif_counters) for c in r.classes],
@@ -718,6 +846,15 @@ def run_case(case, probe=True):
                     del o
                 except Exception as e:
                     beh.append(f"{type(e).__name__}")
+            elif spec["variant"] == "own_getattr":
+                try:
+                    o = c.__new__(c)
+                    n0 = c._verif_counters["getattr"]
+                    getattr(o, "no_such_attribute", None)
+                    beh.append(c._verif_counters["getattr"] == n0 + 1)
+                    del o
+                except Exception as e:
+                    beh.append(f"{type(e).__name__}")
             else:
                 beh.append(True)
         obs["behaves"] = beh
@@ -731,7 +868,7 @@ def run_case(case, probe=True):
             r.index(rep)
             views = []
             for fresh in (False, True):
-                r.events, r.inits = [], []
+                r.events, r.inits, r.init_ev, r.anns = [], [], [], []
                 r.res_seen, r.more_pos = set(), {}
                 mm = r.make_mm(main["mm"], fresh_classes=True) if fresh else None
                 ok2, exc2, m2 = r.attempt(rep, mm)
@@ -764,7 +901,7 @@ FAULTS = [
     ("resolve", "unknown"), ("resolve", "exc"), ("resolve", "postponed"), ("init", "exc"), ("init", "type"),
     ("oproc", "exc"), ("mproc", "main"), ("mproc", "import"), ("act", "propagate"),
 ]
-ROOT_VARIANTS = ["plain", "own_setattr", "own_getattribute", "own_all", "derived"]
+ROOT_VARIANTS = ["plain", "own_setattr", "own_getattribute", "own_all", "derived", "own_getattr"]
 
 
 class Gen:
@@ -914,6 +1051,8 @@ class Gen:
                 case["classes"].append({"rule": r, "variant": v})
                 cids.append(len(case["classes"]) - 1)
         case["mms"].append({"classes": cids})
+        if rng.chance(0.2):
+            case["mms"][-1]["noprocs"] = True  # no object processors (only the match-rule processor of Val)
         return len(case["mms"]) - 1
 
     def add_acts(self, case, root, level, force_fail=False):
@@ -941,7 +1080,92 @@ class Gen:
                 self.add_acts(case, sub, level + 1)
 
 
+def ann_sites(case, root):
+    """(kind, node, hook, reach) for every hook of a load tree whose user code gets hold of objects with a
+    postponed constructor; reach = [(label, rule, via)]: what it can annotate (via: how a constructor
+    finds the object among its arguments)"""
+    sites = []
+    nodes = [n for n in walk_nodes(root) if not n.get("immut")]
+    everything = [(lab, rule, None) for n in nodes for lab, rule, _ in node_objs(n)]
+    for n in nodes:
+        own = [(lab, rule, None) for lab, rule, _ in node_objs(n)]
+        if n.get("pre") is not None:
+            sites.append(("pre", n, n["pre"], own))  # imports are not loaded yet
+        if n is not root:
+            # model processor of an imported file: runs before the constructors of its objects
+            sites.append(("mproc", n, n["mproc"], [(lab, rule, None) for x in walk_nodes(n) for lab, rule, _ in node_objs(x)]))
+        parent_of = {lab: par for lab, rule, par in node_objs(n)}
+        rule_by = {lab: rule for lab, rule, _ in everything}
+        specs = {o["lab"]: o for o in root_children(n)}
+        specs.update({o["lab"]: o for o in walk_objs(n["objs"])})
+        for lab, o in specs.items():
+            if o["k"] == "ref":
+                # the referring object, its containers, the items it refers to first; then anything loaded
+                near = [lab, o["target"], *o["more"]]
+                p = parent_of.get(lab)
+                while p is not None:
+                    near.append(p)
+                    p = parent_of.get(p)
+                pref = [(x, rule_by[x], None) for x in near if x in rule_by]
+                for h in o["res"]:
+                    sites.append(("resolve", n, h, pref + pref + everything))
+            if node_class(case, n, rule_of(o)) is not None:
+                reach = [(parent_of[lab], rule_by[parent_of[lab]], "parent")]
+                if o["k"] == "ref":
+                    reach.append((o["target"], "Item", "target"))
+                    reach += [(t, "Item", ["more", i]) for i, t in enumerate(o["more"])]
+                sites.append(("init", n, o["init"], reach))
+    return sites
+
+
+def add_anns(case, rng):
+    """annotations of objects under construction, for every load tree of the case"""
+    serial = [9000]
+    for li, root in enumerate(case["loads"]):
+        if root.get("immut") or not rng.chance(0.6 if li == 0 else 0.4):
+            continue
+        sites = [s for s in ann_sites(case, root) if s[3]]
+        if not sites:
+            continue
+        node_of = {lab: n for n in walk_nodes(root) for lab, _, _ in node_objs(n)}
+        for _ in range(rng.randint(1, 4)):
+            kind, n, h, reach = rng.choice(sites)
+            user = [r for r in reach if node_class(case, node_of[r[0]], r[1]) is not None]
+            to, rule, via = rng.choice(user if user and rng.chance(0.75) else reach)
+            own = RULE_ATTRS[rule]
+            # `parent` on a root object (it has none of its own).  textX navigates by that name (get_model), so
+            # user code can only do this where textX has no more use for it (loading imports, resolving references
+            # of this or of an importing file, locating objects for their processors): in a metamodel without
+            # object processors, from a constructor (a child stores on its container, the root)
+            root_parent = rule == "Model" and kind == "init" and case["mms"][node_of[to]["mm"]].get("noprocs")
+            what = rng.weighted([("extra", 11), ("foreign", 5), ("own", 9 if rule == "Item" and kind != "init" else 0),
+                                 ("parent", 40 if root_parent else 0)])
+            if what == "parent":
+                name = "parent"
+            elif what == "extra":
+                name = rng.choice(EXTRA_NAMES)
+            elif what == "foreign":
+                name = rng.choice([x for x in FOREIGN_NAMES if x not in own])
+            else:
+                name = "val"  # a grammar attribute of the object itself: the constructor gets the new value
+            serial[0] += 1
+            h["ann"].append({"to": to, "name": name, "op": "set", "via": via, "late": rng.chance(0.3), "val": serial[0]})
+            if what != "own" and rng.chance(0.2):
+                # ... and deleted again: by the same user code or by another call that reaches the object
+                others = [(s, r) for s in sites for r in s[3] if r[0] == to]
+                (k2, n2, h2, _), (_, _, via2) = rng.choice(others) if rng.chance(0.5) else ((kind, n, h, reach), (to, rule, via))
+                h2["ann"].append({"to": to, "name": name, "op": "del", "via": via2, "late": rng.chance(0.5), "val": 0})
+
+
 def gen_case(rng, fault_index=None, multi=None):
+    """One case: load trees, faults, nested loads (`gen_case0`), then the annotations (separate random
+    stream: the trees of a seed do not depend on them)."""
+    case = gen_case0(rng, fault_index, multi)
+    add_anns(case, rng.fork("ann"))
+    return case
+
+
+def gen_case0(rng, fault_index=None, multi=None):
     """One case.  `fault_index` cycles through FAULTS for complete coverage of the fault table."""
     g = Gen(rng)
     case = {"classes": [], "mms": [], "loads": []}
@@ -996,6 +1220,8 @@ def shrink_case(case):
                 for kind, h in all_hooks(n):
                     if h["acts"]:
                         yield ("acts", h["lab"])
+                    for ai in range(len(h.get("ann", ()))):
+                        yield ("ann", h["lab"], kind, ai)
         # drop an import subtree nobody refers to, an object nobody refers to
         for li, n0 in enumerate(case["loads"]):
             for n in walk_nodes(n0):
@@ -1029,6 +1255,13 @@ def shrink_case(case):
                     for kind, h in all_hooks(n):
                         if h["lab"] == v[1] and h["acts"]:
                             h["acts"] = []
+                            ok = True
+        elif v[0] == "ann":
+            for n0 in c2["loads"]:
+                for n in walk_nodes(n0):
+                    for kind, h in all_hooks(n):
+                        if h["lab"] == v[1] and kind == v[2] and len(h.get("ann", ())) > v[3] and not ok:
+                            del h["ann"][v[3]]
                             ok = True
         elif v[0] == "import":
             refs = referenced(c2)
